@@ -464,7 +464,7 @@ pub fn run(args: &Args) -> Report {
             for s in &seqs {
                 let s2 = s.clone();
                 let label = format!("base={base:?} binds={binds} seq=[{}]", s.iter().map(atk_str).collect::<Vec<_>>().join(","));
-                cases.push(Case { label, exec: Box::new(move |r| exec(base, binds, &s2, r)) });
+                cases.push(Case { try_unbounded: false, max_k: u32::MAX, label, exec: Box::new(move |r| exec(base, binds, &s2, r)) });
             }
             if thorough {
                 // length 3 from the richest base states
@@ -474,7 +474,7 @@ pub fn run(args: &Args) -> Report {
                             for c in &al {
                                 let s3 = vec![a.clone(), b.clone(), c.clone()];
                                 let label = format!("base={base:?} binds={binds} seq=[{}]", s3.iter().map(atk_str).collect::<Vec<_>>().join(","));
-                                cases.push(Case { label, exec: Box::new(move |r| exec(base, binds, &s3, r)) });
+                                cases.push(Case { try_unbounded: false, max_k: u32::MAX, label, exec: Box::new(move |r| exec(base, binds, &s3, r)) });
                             }
                         }
                     }
